@@ -428,6 +428,7 @@ func TestC14(t *testing.T) {
 	rec.Require("model:modular", 0.3)
 	rec.Require("model:two-modules+extension", 0.1)
 	rapid.Check(t, func(rt *rapid.T) {
+		noiseCall(rt) // one case in three is preceded by an unrelated, mostly failing call (see noise_test.go)
 		in := c14Draw(rt)
 		m := in.Model
 		mods := map[string]bool{}
